@@ -234,6 +234,13 @@ class VectorProperty(Property):
     def widen(self, o, tier):
         rng = random.Random(1)
         out = []
+        if self.wf and any(t in o.get("unit", "") for t in ("parse_vector", "check_mandatory", "__init__", "from_rh_vector")):
+            # a refuted obligation of the parser / constructor: the statement is tried on whatever
+            # the library accepts among valid vectors and their one-edit neighbourhood
+            for ver, t in edit_neighbourhood(rng, 12, 150):
+                j = self.job(ver, t, o)
+                j["input"]["if_accepted"] = True
+                out.append(j)
         for ver, v in self.vectors_of(o):
             nb = {"3": v3_neighbourhood, "2": v2_neighbourhood, "4": v4_neighbourhood}[ver]
             out += [self.job(ver, x, o) for x in nb(v, rng)]
@@ -323,8 +330,21 @@ def edit_neighbourhood(rng, n_seeds, per_seed):
                     t = s[:i] + rng.choice(alphabet) + s[i:]
                 elif k < 0.45:
                     t = s[:i] + s[i + 1:]
-                elif k < 0.7:
+                elif k < 0.62:
                     t = s[:i] + rng.choice(alphabet) + s[i + 1:]
+                elif k < 0.7:
+                    # letter case of one character or of one whole value
+                    fs = s.split("/")
+                    j = rng.randrange(len(fs))
+                    if ":" in fs[j] and rng.random() < 0.7:
+                        a, b = fs[j].split(":", 1)
+                        b = rng.choice([b.upper(), b.lower(), b.capitalize(), b.swapcase()])
+                        if rng.random() < 0.2:
+                            a = a.lower()
+                        fs[j] = a + ":" + b
+                        t = "/".join(fs)
+                    else:
+                        t = s[:i] + s[i:i + 1].swapcase() + s[i + 1:]
                 else:
                     fs = s.split("/")
                     j = rng.randrange(len(fs))
@@ -413,8 +433,13 @@ class C07(VectorProperty):
 class C08(VectorProperty):
     wf = True
 
+    def widen(self, o, tier):
+        if o.get("unit", "").startswith("interactive"):
+            return builder_sessions(random.Random(1), 2000)
+        return VectorProperty.widen(self, o, tier)
+
     def jobs(self, tier):
-        return (VectorProperty.jobs(self, tier) + lemma_jobs("lemmas.regex", "emitted_in_official", [{"version": v} for v in ("2", "3.0", "3.1", "4")])
+        return (VectorProperty.jobs(self, tier) + contract_jobs("contracts.interactive", [("interactive", "ask_interactively")]) + lemma_jobs("lemmas.regex", "emitted_in_official", [{"version": v} for v in ("2", "3.0", "3.1", "4")])
                 + reparse_jobs("reparse"))
 
     id = "C08"
@@ -836,7 +861,7 @@ def builder_sessions(rng, n):
     out = []
     specs = {2: S2, 3.0: S3, 3.1: S3, 4.0: S4}
     for _ in range(n):
-        version = rng.choice([2, 3.0, 3.1, 4.0])
+        version = rng.choice([2, 3.0, 3.1, 4.0, 2, 3.0, 3.1, 4.0, 3, 4, 2.0])  # incl. the int / float twins
         sp = specs[version]
         allm = rng.random() < 0.6
         metrics = list(sp.ORDER) if allm else list(sp.BASE)
@@ -988,7 +1013,8 @@ def cli_jobs(rng, n):
 
 class C17(Property):
     id = "C17"
-    trusted = ("A0", "A1", "A5")
+    exclude = ("*/schema:*",)  # schema validity of the JSON document is C10's business
+    trusted = ("A0", "A1", "A5", "FD")
     technique = "contract on cvss_calculator.main with modelled argparse namespace, ghost stdout and the callee contracts of the constructors, accessors and the builder"
 
     def jobs(self, tier):
@@ -996,7 +1022,7 @@ class C17(Property):
         # contracts it relies on (constructors, accessors)
         jobs = contract_jobs("contracts.cli", [("cvss_calculator", "main")])
         jobs += contract_jobs("contracts.interactive", [("interactive", "ask_interactively")])
-        for modname, keys in [("contracts.init", INIT_V23)] + split_by_module(acc(["scores", "severities", "clean_vector", "rh_vector"])):
+        for modname, keys in [("contracts.init", INIT_V23)] + split_by_module(acc(["scores", "severities", "clean_vector", "rh_vector", "as_json"])):
             jobs += contract_jobs(modname, keys)
         return jobs
 
